@@ -191,7 +191,9 @@ class GroupByChunk(Chunk, GroupByBase):
         args = [
             meta_nonempty(op._meta) if isinstance(op, Expr) else op for op in self._args
         ]
-        return make_meta(self.operation(*args, **self._kwargs))
+        meta = self.operation(*args, **self._kwargs)
+        # The cov/corr chunks are tuples of frames, which have no meta form
+        return meta if isinstance(meta, tuple) else make_meta(meta)
 
 
 class GroupByApplyConcatApply(ApplyConcatApply, GroupByBase):
